@@ -287,12 +287,22 @@ impl TrainDisp {
         }
 
         // If the train did not move, return false and do not update occupancy
-        if self.offset_free == offset_save && self.disp_node_idx_free == disp_node_idx_save {
-            false
-        } else {
+        let has_moved =
+            !(self.offset_free == offset_save && self.disp_node_idx_free == disp_node_idx_save);
+        if has_moved {
             self.update_occupancy(link_disp_auths, links_blocked, links);
-            true
         }
+
+        // The time passed to fix_advance never precedes the time the train is being updated at.
+        // time_update was derived from the dispatch path as it was when the last advance was fixed;
+        // update_free_path may since have re-spliced the path at the fixed node onto an estimated
+        // time link with a shorter run time (e.g. the main track instead of a siding the train had to
+        // slow down for), and a train that pauses or stays blocked before passing its next node has
+        // nothing else that raises time_update_next. The node times keep the value derived from the
+        // path; only the time the train is queued at does not move backwards.
+        self.time_update_next = self.time_update_next.max(self.time_update);
+
+        has_moved
     }
 
     pub fn rewind(
